@@ -125,7 +125,7 @@ pub fn run(ctx: &mut RunCtx) {
     ctx.assume("new nodes are matched to the engine's internal ids by searching a label/property/adjacency-preserving bijection (creation order inside one statement is not asserted); external ids are read back, not asserted");
     ctx.assume("change counts: only pure CREATE = nodes + relationships, pure [DETACH] DELETE = nodes + relationship keys, model changed => count > 0, and a re-run of a pure MERGE that the reference says creates nothing => 0");
     ctx.assume("update expressions never read a property the same statement writes (statement-internal read-your-writes is C24's subject); statements whose prefix touches an ambiguous reading are skipped");
-    let cases = ctx.tier.pick(3000, 500_000);
+    let cases = ctx.tier.pick(8000, 500_000);
     let excl_merge_on_count = ctx.has_open("count-zero-but-changed:merge-on-set-only");
     let keys: Vec<String> = r#gen::KEYS.iter().map(|s| s.to_string()).collect();
     let types: Vec<String> = r#gen::TYPES.iter().map(|s| s.to_string()).collect();
